@@ -52,6 +52,15 @@ func c18Scenarios(thorough bool) []*scenario {
 		mk("same-dir-failing-check", []cop{a("u", "pwA"), upd("u", "n"), a("u", "n")}, []cop{hup(6)}),
 		mk("same-dir-failing-check-then-good", []cop{a("u", "pwA")}, []cop{hup(6), hup(5)}),
 	}
+	// the same with local hash upgrades (client updates and internal upgrade requests then share a
+	// queue): requests in flight while the signal is handled are answered normally
+	for _, sc := range []*scenario{
+		mk("switch-valid[local]", []cop{upd("u", "n"), a("u", "n")}, []cop{upd("root", "r2")}, []cop{hup(1)}),
+		mk("other-default-same-dir[local]", []cop{upd("u", "n"), a("u", "n")}, []cop{a("u", "pwA")}, []cop{hup(5)}),
+	} {
+		sc.Upgrades = "local"
+		out = append(out, sc)
+	}
 	if thorough {
 		out = append(out,
 			mk("three-signals", []cop{a("u", "pwB"), a("u", "pwA")}, []cop{hup(1), hup(3), hup(2)}),
